@@ -135,7 +135,8 @@ func c02(r *report.Run) {
 		raw = append(raw, fmt.Sprintf("F + %s + 1", a), fmt.Sprintf("F32 + 1 + %s", a), fmt.Sprintf("%s + F + 1", a))
 		raw = append(raw, fmt.Sprintf("%s + 1", a), fmt.Sprintf("%s * 2", a), fmt.Sprintf("-(%s)", a), fmt.Sprintf("%s - 2", a), fmt.Sprintf("I in [%s, 1]", a), fmt.Sprintf("%s %% 7", a), fmt.Sprintf("%s / -1", a))
 	}
-	for _, chain := range []string{"F32 + 1 + 1", "(F + 1) + 1", "F * 3 * 3", "F32 * 3 * 3", "F + 1 + 1 + 1", "1 + F + 1", "F - 1 - 1", "I64 + 1 + 1", "U8 + 200 + 100", "I8 * 100 * 2", "F / 3 / 3", "F + 2 * 1 + 1", "F32 + 1 + 1 == F32"} {
+	for _, chain := range []string{"F32 + 1 + 1", "(F + 1) + 1", "F * 3 * 3", "F32 * 3 * 3", "F + 1 + 1 + 1", "1 + F + 1", "F - 1 - 1", "I64 + 1 + 1", "U8 + 200 + 100", "I8 * 100 * 2", "F / 3 / 3", "F + 2 * 1 + 1", "F32 + 1 + 1 == F32",
+		"I in [-(-1), 5]", "I in [- -1, 3]", "I not in [-(+(-1))]", "I in [-1, 1]", "I in [+1, -(-(-1))]", "I in [1 - 2, 0 - -1]", "I in [-0]", `S in ["a" + "b", "c"]`, "I in [1, 1, 1]", "I not in [+(+(1))]"} {
 		raw = append(raw, chain)
 	}
 	var rawRuns int64
